@@ -190,7 +190,9 @@ type IQResultRoute struct {
 func NewIQResultRoute(ctx context.Context) *IQResultRoute {
 	return &IQResultRoute{
 		context: ctx,
-		result:  make(chan stanza.IQ),
+		// One slot: the single delivery never blocks the receive loop, even if the caller
+		// of SendIQ has stopped waiting.
+		result: make(chan stanza.IQ, 1),
 	}
 }
 
